@@ -691,8 +691,8 @@ def conv_to_u32_i32_ret : String := "i32"
 /-- conv - u32 u32  ⇒  local.get $x : u32 -/
 def conv_to_u32_u32 : List Instr := [.localGet 0]
 def conv_to_u32_u32_ret : String := "u32"
-/-- conv - u32 i64  ⇒  local.get $x ; i64.extend_i32_s : i64 -/
-def conv_to_u32_i64 : List Instr := [.localGet 0, .extend_i32_s]
+/-- conv - u32 i64  ⇒  local.get $x ; i64.extend_i32_u : i64 -/
+def conv_to_u32_i64 : List Instr := [.localGet 0, .extend_i32_u]
 def conv_to_u32_i64_ret : String := "i64"
 /-- conv - u32 u64  ⇒  local.get $x ; i64.extend_i32_u : u64 -/
 def conv_to_u32_u64 : List Instr := [.localGet 0, .extend_i32_u]
